@@ -10,6 +10,7 @@ import Props.C05
 import Props.C01
 import Props.C02
 import Lemmas.OverflowStable
+import Lemmas.LinebreakTable
 namespace TW.C14
 
 /-- splitting the joined lines at the line ending gives the lines back, when no line contains a
@@ -567,5 +568,23 @@ theorem fill_idempotent_ascii_every_width (env : Env) (hsp : env.cw SP = 1) (hcw
       · exact stable_of_prov env hcw mo o halg hsep hii hsi l hprov (by omega)
   obtain ⟨h1, h2⟩ := fill_idempotent_of_stable env mo o t ls hw hne hno hstable
   exact ⟨_, h2, h1⟩
+
+
+/-- `fill_idempotent_firstfit_safe` with the model's own `linebreaks`: the LB7 clause is a theorem
+    for lines without hard-line-break characters -/
+-- @audit TW.C14.fill_idempotent_firstfit_safe_ownlb
+theorem fill_idempotent_firstfit_safe_ownlb (env : Env) (henv : env.opps = ownOpps lbTables)
+    (hsp : env.cw SP = 1) (mo : MinimaOracle Int)
+    (hmo : MoShape mo) (o : Opts) (hb : Builtin o.splitter) (halg : o.alg = .firstFit)
+    (hii : o.initialIndent = []) (hsi : o.subsequentIndent = [])
+    (t : Text) (ls : List Text) (hw : wrap env mo o t = some ls)
+    (hsafe : ∀ l ∈ ls, SeqSafe o.splitter l) (hno : ∀ l ∈ ls, LF ∉ l)
+    (hfit : ∀ l ∈ ls, displayWidth env.cw l ≤ o.width)
+    (hts : ∀ l ∈ ls, l.getLast? ≠ some SP)
+    (hpipe : ∀ l ∈ ls, ∃ frs, pipeline env o l (o.width - displayWidth env.cw o.subsequentIndent) = some frs)
+    (hf : o.sep = .unicode → ∀ l ∈ ls, HardFree (stripAnsi l)) :
+    ∃ f, fill env mo o t = some f ∧ fill env mo o f = some f :=
+  fill_idempotent_firstfit_safe env hsp mo hmo o hb halg hii hsi t ls hw hsafe hno hfit hts hpipe
+    (fun hs l hl => oppsNoSpace_own env henv _ (hf hs l hl))
 
 end TW.C14
